@@ -18,8 +18,9 @@ package main
 // valid value holds exactly its set registered claims and its custom claims - "never ... a value the
 // [value] did not contain"; (2) a valid value still marshals; (3) the same value gives the same document
 // every time it is marshalled in the history; (4) the library's own output decodes to the value.
-// What a failing step itself returns is outside the quantifier (6a: custom values are JSON-native) and only
-// counted. A member that the value does not explain is looked up in the provenance ledger of the history
+// What a failing step itself returns - an error, or the custom value's own panic - is outside the quantifier
+// (6a: custom values are JSON-native) and only counted; a failing step that REPORTS SUCCESS is judged: the
+// document must hold every claim of the value (judgeReportedSuccess), otherwise the encoding was lossy. A member that the value does not explain is looked up in the provenance ledger of the history
 // (the claims of every earlier value, actor levels included) to name the class of the violation.
 //
 // Scheduling is a dimension, never part of a verdict: the first share of the cases runs on a single P
@@ -695,7 +696,8 @@ func (c *ctx) runFault(caseID int64, h *history, step int) (failed bool) {
 	}
 	var err error
 	var pi *mon.PanicInfo
-	onGoroutine(hp.other, func() { _, err, pi = marshalCatch(ptr) })
+	var doc []byte
+	onGoroutine(hp.other, func() { doc, err, pi = marshalCatch(ptr) })
 	bucket := hp.kind.class + " at " + hp.pos
 	switch {
 	case pi != nil && strings.Contains(pi.Value, poisonPanic) && hp.kind.class == "marshaler-panic":
@@ -722,9 +724,111 @@ func (c *ctx) runFault(caseID int64, h *history, step int) (failed bool) {
 		c.t.count("history_fault", bucket+" -> error")
 		return true
 	}
-	hp.result = "marshalled without error"
-	c.t.count("history_fault", bucket+" -> marshalled without error (outside the quantifier, not judged)")
+	hp.result = "marshalled without error: " + trunc(string(doc), 3000)
+	c.judgeReportedSuccess(caseID, h, step, doc, bucket)
 	return false
+}
+
+// judgeReportedSuccess: json.Marshal reported SUCCESS for a value one of whose custom values JSON cannot express.
+// An error (or the custom value's own panic) is outside the quantifier; a success is not: "encoding is lossless -
+// registered and custom claims survive", so the document must hold every claim of the value: all the set
+// registered claims, all the JSON-native custom claims with their values, and a member for the unencodable one
+// (with whatever the encoder made of it). A document that silently lacks claims of the value is a lossy encoding.
+func (c *ctx) judgeReportedSuccess(caseID int64, h *history, step int, doc []byte, bucket string) {
+	hp := h.ops[step]
+	s := hp.v.spec
+	lost := func(what string, extra map[string]any) {
+		w := h.witness(step)
+		for k, x := range extra {
+			w[k] = x
+		}
+		c.t.count("history_fault", bucket+" -> marshalled without error, claims of the value are missing")
+		c.run.Violation("C12:unencodable:"+s.site+":success-with-claims-lost", caseID,
+			fmt.Sprintf("step %d of a history: json.Marshal of a %s with a custom value that cannot be encoded (%s, %s) returned no error and %s", step, s.name, hp.kind.desc, hp.pos, what), w)
+	}
+	r0, rerr := refDecode(doc)
+	refObj, isObj := r0.(map[string]any)
+	if rerr != nil || !isObj {
+		lost("something that is not a JSON object", nil)
+		return
+	}
+	// the clean model without the key that carries the unencodable value, and the document without that member
+	m := &value{spec: s, vals: map[string]any{}, custom: map[string]any{}}
+	for k, x := range hp.v.vals {
+		m.vals[k] = x
+	}
+	for k, x := range hp.v.custom {
+		m.custom[k] = x
+	}
+	if hp.v.custom == nil {
+		m.custom = nil
+	}
+	present := false
+	switch hp.pos {
+	case posCustom, posNested:
+		_, present = refObj[hp.key]
+		delete(refObj, hp.key)
+		delete(m.custom, hp.key)
+	case posEvents:
+		evs := map[string]any{}
+		if old, _ := hp.v.vals["events"].(map[string]any); old != nil {
+			for k, x := range old {
+				evs[k] = x
+			}
+		}
+		delete(evs, hp.key)
+		m.vals["events"] = evs
+		if de, _ := refObj["events"].(map[string]any); de != nil {
+			_, present = de[hp.key]
+			delete(de, hp.key)
+			if len(de) == 0 && len(evs) == 0 {
+				delete(refObj, "events")
+			}
+		}
+	case posActor:
+		// copy the actor chain down to the level that carries the value
+		var copyChain func(a *actorM, d int) *actorM
+		copyChain = func(a *actorM, d int) *actorM {
+			if a == nil {
+				return nil
+			}
+			cp := &actorM{Iss: a.Iss, Sub: a.Sub, Act: a.Act, Custom: a.Custom}
+			if d == hp.depth {
+				cp.Custom = map[string]any{}
+				for k, x := range a.Custom {
+					if k != hp.key {
+						cp.Custom[k] = x
+					}
+				}
+				return cp
+			}
+			cp.Act = copyChain(a.Act, d+1)
+			return cp
+		}
+		a, _ := hp.v.vals["act"].(*actorM)
+		m.vals["act"] = copyChain(a, 1)
+		var level map[string]any = refObj
+		for d := 1; d <= hp.depth && level != nil; d++ {
+			level, _ = level["act"].(map[string]any)
+		}
+		if level != nil {
+			_, present = level[hp.key]
+			delete(level, hp.key)
+		}
+	}
+	issues := checkDoc(m, refObj, nil, c.t, false)
+	if !present || len(issues) > 0 {
+		var details []string
+		if !present {
+			details = append(details, fmt.Sprintf("no member %q for the custom value that cannot be encoded (%s)", hp.key, hp.pos))
+		}
+		for _, is := range issues {
+			details = append(details, is.detail)
+		}
+		lost("a document that lacks claims of the value: "+trunc(strings.Join(details, "; "), 600), map[string]any{"issues": details})
+		return
+	}
+	c.t.count("history_fault", bucket+" -> marshalled without error, every claim of the value is in the document (left open)")
 }
 
 func runHistory(c *ctx, i int, sched string) {
